@@ -596,10 +596,12 @@ fn build_hvcc_fmp4(config: &FragmentConfig) -> Vec<u8> {
 
     let mut payload = vec![
         1, // configuration_version
-        0, // general_profile_space (2 bits), general_tier_flag (1 bit), general_profile_idc (5 bits) - using defaults
+        // general_profile_space (2 bits), general_tier_flag (1 bit), general_profile_idc (5 bits): first byte of the
+        // SPS's profile_tier_level (SPS NAL byte 3)
+        config.sps.get(3).copied().unwrap_or(0x01),
         0, 0, 0, 0, // general_profile_compatibility_flags
         0, 0, 0, 0, 0, 0, // general_constraint_indicator_flags
-        0, // general_level_idc - using default
+        config.sps.get(14).copied().unwrap_or(93), // general_level_idc (SPS NAL byte 14)
         0xf0, 0, // reserved (4 bits, all ones) + min_spatial_segmentation_idc
         0xfc, // reserved (6 bits, all ones) + parallelismType
         0xfc, // reserved (6 bits, all ones) + chromaFormat
